@@ -17,16 +17,10 @@ var ExoticFamilies = []bgp.Family{
 
 // MaxNLRIPerAttr tells how many NLRIs of family f one MP_(UN)REACH_NLRI can carry so that it
 // parses back: 0 means any number.  The opaque NLRI has no value length on the wire (its value
-// runs to the end of the attribute), and EncapNLRI.decodeFromBytes takes the whole rest of the
-// attribute for the address (known issue encap-nlri-multi).
+// runs to the end of the attribute).
 func MaxNLRIPerAttr(f bgp.Family) int {
-	switch f {
-	case bgp.RF_OPAQUE:
+	if f == bgp.RF_OPAQUE {
 		return 1
-	case bgp.RF_IPv4_ENCAP, bgp.RF_IPv6_ENCAP:
-		if avoid("encap-nlri-multi") {
-			return 1
-		}
 	}
 	return 0
 }
@@ -58,8 +52,7 @@ func ExoticNLRI(s *Src, f bgp.Family) bgp.NLRI {
 	panic(fmt.Sprintf("verifgen: ExoticNLRI does not serve family %s", f))
 }
 
-// xRD is a route distinguisher of one of the three defined types (or, when the
-// known issue is switched off, of an unknown type).
+// xRD is a route distinguisher of one of the three defined types or of an unknown type.
 func xRD(s *Src) bgp.RouteDistinguisherInterface {
 	switch s.Intn(4) {
 	case 0:
@@ -69,9 +62,6 @@ func xRD(s *Src) bgp.RouteDistinguisherInterface {
 	case 2:
 		return bgp.NewRouteDistinguisherFourOctetAS(s.U32(), s.U16())
 	default:
-		if avoid("rd-unknown-type") {
-			return bgp.NewRouteDistinguisherTwoOctetAS(s.U16(), s.U32())
-		}
 		return &bgp.RouteDistinguisherUnknown{
 			DefaultRouteDistinguisher: bgp.DefaultRouteDistinguisher{Type: Pick(s, []uint16{3, 4, 255, 65535})},
 			Value:                     s.Bytes(6),
@@ -127,9 +117,6 @@ func xEVPN(s *Src) bgp.NLRI {
 		}
 		return must(bgp.NewEVPNIPPrefixRoute(rd, xESI(s), s.U32(), uint8(p.Bits()), p.Addr(), gw, xLabel24(s)))
 	default:
-		if avoid("evpn-ipmsi") {
-			return must(bgp.NewEVPNMulticastEthernetTagRoute(rd, s.U32(), xIP(s, s.Bool())))
-		}
 		return bgp.NewEVPNIPMSIRoute(rd, s.U32(), xRouteTarget(s))
 	}
 }
@@ -251,7 +238,7 @@ func xFlowSpec(s *Src, f bgp.Family) bgp.NLRI {
 	for i, n := 0, 1+s.Intn(4); i < n; i++ {
 		chosen[s.Intn(len(types))] = true
 	}
-	huge := s.Chance(1, 16) && !avoid("flowspec-len-ge-240")
+	huge := s.Chance(1, 16) // 240 octets or more: two octet NLRI length
 	var comps []bgp.FlowSpecComponentInterface
 	for i, t := range types {
 		if !chosen[i] {
@@ -395,9 +382,6 @@ func xLsNLRI(s *Src) bgp.NLRI {
 			p := s.Prefix4()
 			if v6 {
 				p = s.Prefix6()
-			}
-			if p.Bits() == 0 && avoid("ls-prefix-len0") {
-				p = netip.PrefixFrom(p.Addr(), 8)
 			}
 			pd.IPReachability = append(pd.IPReachability, p)
 		}
